@@ -15,7 +15,7 @@ LEVEL = "model_checking"
 ASSUMPTIONS = L.ASSUMPTIONS
 INV = ["SingleOwner", "OwnedRemoved", "NoUAF", "ReclaimedUnreachable", "Linearizable", "Conservation", "InTabIsPhysical", "BucketsLinked", "FlagsOk"]
 COMP = L.comp_for(INV)
-QUICK = ["lfht_2del", "lfht_addr_del_rc", "lfht_repl_lookup", "lfht_shrink_rd", "lfht_destroy"]
+QUICK = ["lfht_2del", "lfht_addr_del_rc", "lfht_repl_lookup", "lfht_shrink_rd", "lfht_grow", "lfht_destroy"]      # lfht_grow: bucket nodes linked in front of equal-hash user nodes
 THOROUGH = QUICK + ["lfht_shrink4", "lfht_regrow", "lfht_mix3", "lfht_repl2"]
 NEG = [("lfht_2del", "owner_or"), ("lfht_2del", "gc_norestart"), ("lfht_shrink_rd", "free_early")]
 
